@@ -303,7 +303,7 @@ func outputDiscipline(v *Verdict, d *DeclSpec, r *OpResult, label string, argv [
 		v.fail("c04:error-on-wrong-descriptor", fmt.Sprintf("the error text belongs on %s only, but %s received output: %s", wantName, otherName, desc))
 		return
 	}
-	msg := string(r.Msg)
+	msg := string(r.Text) // err.Error(), the text the statement speaks of
 	if strings.HasPrefix(msg, "<Error() panicked") {
 		return // the error value has no text of its own (typed nil): what is printed for it is not fixed
 	}
